@@ -55,6 +55,9 @@ func (sh *SumHead) ReadFrom(c *rsyncwire.Conn) error {
 	if sh.BlockLength < 0 || sh.BlockLength > maxBlockLen {
 		return fmt.Errorf("invalid block length %d", sh.BlockLength)
 	}
+	if sh.BlockLength == 0 && sh.ChecksumCount > 0 {
+		return fmt.Errorf("invalid block length %d for %d checksums", sh.BlockLength, sh.ChecksumCount)
+	}
 
 	sh.ChecksumLength, err = c.ReadInt32()
 	if err != nil {
